@@ -212,8 +212,25 @@ func VHPubUnsub() {
 	vAssert(s.ps.Unsub(nil) == ErrSubscriptionNotInitalized, "Unsub(nil) reports ErrSubscriptionNotInitalized")
 	foreign := make(chan int)
 	vAssert(s.ps.Unsub(foreign) == ErrAlreadyUnsubscribed, "Unsub(unknown) reports ErrAlreadyUnsubscribed")
-	which := vChoose("which", 4)
+	which := vChoose("which", 5)
 	switch which {
+	case 4:
+		// a WithOnly publisher whose subscription the parent removes (it has its own lock, so
+		// nothing stops the removal): publishing through it afterwards must neither crash nor deliver
+		only := s.ps.WithOnly(s.subs[0])
+		if vChoose("all", 2) == 1 {
+			s.ps.UnsubAll()
+		} else {
+			s.ps.Unsub(s.subs[0])
+		}
+		s.publish(vChoose("variant", 6), []int{ev1})
+		only.PubTimeoutAfter = 0
+		c := &c10ps{ps: only}
+		c.publish(vChoose("variant2", 6), []int{ev2})
+		vWait()
+		vAssert(s.closed[0], "the removed channel is closed")
+		vAssert(c10count(s.logs[0], ev2) == 0, "nothing is delivered to a removed channel through a WithOnly publisher")
+		vCover("unsub: withonly after removal")
 	case 0, 1:
 		s.ps.PubSync(ev1)
 		vAssert(s.ps.Unsub(s.subs[which]) == nil, "Unsub(known) succeeds")
